@@ -147,6 +147,9 @@ def build_record_map(rm, nm=None):
         # columns are column names of the row-record form); cells of the key columns are data, not names
         ct = pandas.DataFrame({_n(nm, c): [(r[j] if j < nk else _n(nm, r[j])) for r in s["control_table"]["rows"]] for j, c in
                                enumerate(s["control_table"]["cols"])})
+        if s.get("col_order"):
+            # the control table as the user laid it out: key columns need not come first
+            ct = ct[[_n(nm, c) for c in s["col_order"]]]
         return cdata.RecordSpecification(ct, record_keys=[_n(nm, c) for c in (s.get("record_keys") or [])],
                                          control_table_keys=[_n(nm, c) for c in (s.get("control_table_keys") or [])],
                                          strict=bool(s.get("strict", False)))
